@@ -1001,7 +1001,16 @@ class Mailbox:
         if isinstance(notifications, str):
             notifications = [notifications]
 
-        for c in self.clients.values():
+        # NOTE: A push to a slow client waits, and while it does other
+        #       sessions select and leave this mailbox: go over a copy of the
+        #       clients (the dict changing under the loop was an "Unhandled
+        #       exception" for the command, and the clients not yet reached
+        #       never heard of the change), and leave out those that have
+        #       gone in the meantime.
+        #
+        for name, c in list(self.clients.items()):
+            if self.clients.get(name) is not c:
+                continue
             # Skip over the client we are not going to send notifications to.
             #
             if c == dont_notify:
@@ -1277,7 +1286,9 @@ class Mailbox:
         notifications = []
         notifications.append(f"* {num_msgs} EXISTS\r\n")
         notifications.append(f"* {num_recent} RECENT\r\n")
-        for c in self.clients.values():
+        for name, c in list(self.clients.items()):
+            if self.clients.get(name) is not c:
+                continue
             # A client that has not yet been sent its pending EXPUNGE's still
             # counts the expunged messages. The new count must reach it after
             # those EXPUNGE's or it ends up with too few messages.
